@@ -1,6 +1,6 @@
 (* Proofs about the evaluation gate model (C15). *)
 From Coq Require Import ZArith List Bool Lia FMapPositive FMapFacts SetoidList.
-From Burrow Require Import EvalLoop.
+From Burrow Require Import Int64 Int64Proofs EvalLoop.
 Import ListNotations.
 Open Scope Z_scope.
 
@@ -63,7 +63,7 @@ Proof.
   (* remaining: Tick while evaluating, Refresh *)
   all: try (rewrite (mon_actions_evals _ (mkMon LHeld false c) (tick_evals_all_eval mi now g) eq_refl eq_refl); simpl;
             destruct c; split; reflexivity).
-  all: try (destruct (needs_new present g && (mi * 1000 <=? 0)); simpl; destruct c; split; reflexivity).
+  all: try (destruct (needs_new present g && (mul64 mi 1000 <=? 0)); simpl; destruct c; split; reflexivity).
 Qed.
 
 Lemma coupled_enter_wait : forall s m, coupled s m = true -> coupled (enter_wait s) m = true.
@@ -267,7 +267,7 @@ Definition refresh_f (now : Z) (gs : PositiveMap.t Z) :=
              | Some le => le
              | None => match PositiveMap.find g gs with
                        | Some le => le
-                       | None => now - snd gr * ns_per_ms
+                       | None => now + neg_duration (snd gr) ns_per_ms
                        end
              end in
     PositiveMap.add g v acc.
@@ -313,38 +313,47 @@ Qed.
 Definition lower (g : positive) (t1 : Z) (s : state) : Prop :=
   exists le, PositiveMap.find g (groups s) = Some le /\ t1 <= le.
 
-Lemma due_gt : forall mi now le, due mi now le = true -> le + mi * ns_per_s < now.
-Proof. intros mi now le H. unfold due, send_before in H. apply Z.ltb_lt in H. lia. Qed.
+(* within the bound the Duration does not wrap *)
+Lemma neg_duration_exact : forall mi, 0 <= mi <= max_pace_interval -> neg_duration mi ns_per_s = - (mi * ns_per_s).
+Proof.
+  intros mi H. unfold neg_duration, mul64, max_pace_interval, ns_per_s in *.
+  rewrite (wrap64_id (- mi)) by (unfold in_i64, two63; lia).
+  rewrite wrap64_id by (unfold in_i64, two63; lia). lia.
+Qed.
+
+Lemma due_gt : forall mi now le, 0 <= mi <= max_pace_interval -> due mi now le = true -> le + mi * ns_per_s < now.
+Proof. intros mi now le Hmi H. unfold due, send_before in H. rewrite neg_duration_exact in H by exact Hmi. apply Z.ltb_lt in H. lia. Qed.
 
 Lemma pace_step_i : forall mi s e g t1,
-  0 <= mi -> lower g t1 s -> keeps g e = true ->
+  0 <= mi <= max_pace_interval -> lower g t1 s -> keeps g e = true ->
   lower g t1 (fst (step_i mi s e)) /\
   (forall t2, In (Eval g t2) (snd (step_i mi s e)) -> t2 - t1 > mi * ns_per_s).
 Proof.
   intros mi [p d c gs] e g t1 Hmi [le [Hf Hle]] Hk. unfold lower, step_i, set_ph. simpl in *.
   assert (Hns : 0 <= mi * ns_per_s) by (unfold ns_per_s; lia).
+  pose proof (due_gt mi) as Hdue.
   assert (Hkeep : exists le0, PositiveMap.find g gs = Some le0 /\ t1 <= le0) by (exists le; split; assumption).
   destruct p; simpl; try (split; [exact Hkeep | intros t2 []]);
   destruct e; simpl;
     try (split; [exact Hkeep | intros t2 Hin; simpl in Hin; exfalso; intuition discriminate]);
     try (destruct c; simpl; (split; [exact Hkeep | intros t2 Hin; simpl in Hin; exfalso; intuition discriminate])).
-  all: try (destruct (needs_new present gs && (mi * 1000 <=? 0)); simpl;
+  all: try (destruct (needs_new present gs && (mul64 mi 1000 <=? 0)); simpl;
             (split; [first [exact Hkeep | exists le; split; [apply refresh_keeps; [assumption | apply keeps_in; assumption] | assumption]]
                     | intros t2 Hin; simpl in Hin; exfalso; intuition discriminate])).
   all: destruct d; simpl; try (split; [exact Hkeep | intros t2 []]).
   all: try (destruct c; simpl; (split; [exact Hkeep | intros t2 Hin; simpl in Hin; exfalso; intuition discriminate])).
   all: split;
     [ exists (stamp mi now le); split; [rewrite PF.map_o, Hf; reflexivity |];
-      unfold stamp; destruct (due mi now le) eqn:Hd; [apply due_gt in Hd; lia | assumption]
+      unfold stamp; destruct (due mi now le) eqn:Hd; [apply Hdue in Hd; [lia | exact Hmi] | assumption]
     | intros t2 Hin; apply tick_evals_in in Hin as [-> [le' [Hf' Hd]]]; rewrite Hf in Hf'; inversion Hf'; subst le';
-      apply due_gt in Hd; lia ].
+      apply Hdue in Hd; [lia | exact Hmi] ].
 Qed.
 
 Lemma groups_enter_wait : forall s, groups (enter_wait s) = groups s.
 Proof. intros [p d c g]; destruct p; reflexivity. Qed.
 
 Lemma pace_step_s : forall mi s e g t1,
-  0 <= mi -> lower g t1 s -> keeps g e = true ->
+  0 <= mi <= max_pace_interval -> lower g t1 s -> keeps g e = true ->
   lower g t1 (fst (step_s mi s e)) /\
   (forall t2, In (Eval g t2) (snd (step_s mi s e)) -> t2 - t1 > mi * ns_per_s).
 Proof.
@@ -360,7 +369,7 @@ Proof.
   destruct p; simpl in *; try contradiction;
     destruct e; simpl in *; try (exfalso; intuition discriminate);
     try (destruct c; simpl in *; exfalso; intuition discriminate);
-    try (destruct (needs_new present gs && (mi * 1000 <=? 0)); simpl in *; exfalso; intuition discriminate).
+    try (destruct (needs_new present gs && (mul64 mi 1000 <=? 0)); simpl in *; exfalso; intuition discriminate).
   all: destruct d; simpl in *; try contradiction.
   all: apply tick_evals_in in Hin as [-> [le [Hf Hd]]]; exists now; split; [|lia];
        rewrite PF.map_o, Hf; simpl; unfold stamp; rewrite Hd; reflexivity.
@@ -377,7 +386,7 @@ Proof.
   intros mi [p d c gs] e g t Hin g'. destruct e; try reflexivity. exfalso.
   unfold step_i, set_ph in Hin. simpl in Hin.
   destruct p; simpl in Hin; try contradiction;
-    destruct (needs_new present gs && (mi * 1000 <=? 0)); simpl in Hin; intuition discriminate.
+    destruct (needs_new present gs && (mul64 mi 1000 <=? 0)); simpl in Hin; intuition discriminate.
 Qed.
 
 Section PaceRun.
@@ -420,7 +429,7 @@ End PaceRun.
    are STRICTLY more than minInterval apart in the clock read by the request loop -- for every clock sequence
    (non-decreasing or not), every interleaving with lock / expiry events, in both machines. *)
 Theorem pacing : forall mi c0 gs tr l1 e1 a1 l2 e2 a2 l3 g t1 t2,
-  0 <= mi ->
+  0 <= mi <= max_pace_interval ->
   snd (run (step_s mi) (init_state c0 gs) tr) = l1 ++ (e1, a1) :: l2 ++ (e2, a2) :: l3 ->
   In (Eval g t1) a1 -> In (Eval g t2) a2 ->
   forallb (keeps g) (map fst l2) = true ->
@@ -432,7 +441,7 @@ Proof.
 Qed.
 
 Theorem pacing_interleaved : forall mi c0 gs tr l1 e1 a1 l2 e2 a2 l3 g t1 t2,
-  0 <= mi ->
+  0 <= mi <= max_pace_interval ->
   snd (run (step_i mi) (init_state c0 gs) tr) = l1 ++ (e1, a1) :: l2 ++ (e2, a2) :: l3 ->
   In (Eval g t1) a1 -> In (Eval g t2) a2 ->
   forallb (keeps g) (map fst l2) = true ->
@@ -577,47 +586,47 @@ Qed.
    configured by it, two evaluations of one group entry are more than the shortest configured interval apart *)
 Theorem pacing_configured : forall mods i c0 gs tr l1 e1 a1 l2 e2 a2 l3 g t1 t2,
   (forall m, In m mods -> 0 <= eff_interval m < max_int64) ->
-  shortest mods i ->
+  shortest mods i -> i <= max_pace_interval ->
   snd (run (step_s (configure_min mods)) (init_state c0 gs) tr) = l1 ++ (e1, a1) :: l2 ++ (e2, a2) :: l3 ->
   In (Eval g t1) a1 -> In (Eval g t2) a2 ->
   forallb (keeps g) (map fst l2) = true ->
   t2 - t1 > i * ns_per_s.
 Proof.
-  intros mods i c0 gs tr l1 e1 a1 l2 e2 a2 l3 g t1 t2 Hr Hs Hrun H1 H2 Hk.
+  intros mods i c0 gs tr l1 e1 a1 l2 e2 a2 l3 g t1 t2 Hr Hs Hb Hrun H1 H2 Hk.
   assert (Hne : mods <> []) by (destruct Hs as [Hin _]; destruct mods; [contradiction | discriminate]).
-  rewrite (shortest_unique mods i (configure_min mods) Hs (min_interval_is_min mods Hne (fun m Hm => proj2 (Hr m Hm)))).
-  eapply pacing; try eassumption. apply configure_min_nonneg. intros m Hm. apply (proj1 (Hr m Hm)).
+  rewrite (shortest_unique mods i (configure_min mods) Hs (min_interval_is_min mods Hne (fun m Hm => proj2 (Hr m Hm)))) in *.
+  eapply pacing; try eassumption. split; [|exact Hb]. apply configure_min_nonneg. intros m Hm. apply (proj1 (Hr m Hm)).
 Qed.
 
 Theorem pacing_configured_interleaved : forall mods i c0 gs tr l1 e1 a1 l2 e2 a2 l3 g t1 t2,
   (forall m, In m mods -> 0 <= eff_interval m < max_int64) ->
-  shortest mods i ->
+  shortest mods i -> i <= max_pace_interval ->
   snd (run (step_i (configure_min mods)) (init_state c0 gs) tr) = l1 ++ (e1, a1) :: l2 ++ (e2, a2) :: l3 ->
   In (Eval g t1) a1 -> In (Eval g t2) a2 ->
   forallb (keeps g) (map fst l2) = true ->
   t2 - t1 > i * ns_per_s.
 Proof.
-  intros mods i c0 gs tr l1 e1 a1 l2 e2 a2 l3 g t1 t2 Hr Hs Hrun H1 H2 Hk.
+  intros mods i c0 gs tr l1 e1 a1 l2 e2 a2 l3 g t1 t2 Hr Hs Hb Hrun H1 H2 Hk.
   assert (Hne : mods <> []) by (destruct Hs as [Hin _]; destruct mods; [contradiction | discriminate]).
-  rewrite (shortest_unique mods i (configure_min mods) Hs (min_interval_is_min mods Hne (fun m Hm => proj2 (Hr m Hm)))).
-  eapply pacing_interleaved; try eassumption. apply configure_min_nonneg. intros m Hm. apply (proj1 (Hr m Hm)).
+  rewrite (shortest_unique mods i (configure_min mods) Hs (min_interval_is_min mods Hne (fun m Hm => proj2 (Hr m Hm)))) in *.
+  eapply pacing_interleaved; try eassumption. split; [|exact Hb]. apply configure_min_nonneg. intros m Hm. apply (proj1 (Hr m Hm)).
 Qed.
 
 (* the pace is the shortest interval and no slower: while the gate is open, an iteration of the request loop evaluates
    every group whose last evaluation is more than the shortest configured interval old *)
 Theorem evaluated_when_due : forall mods i s now g le,
   (forall m, In m mods -> eff_interval m < max_int64) ->
-  shortest mods i ->
+  shortest mods i -> 0 <= i <= max_pace_interval ->
   doEval s = true -> ph s <> Crashed ->
   PositiveMap.find g (groups s) = Some le -> now - le > i * ns_per_s ->
   In (Eval g now) (snd (step_s (configure_min mods) s (Tick now))).
 Proof.
-  intros mods i [p d c gs] now g le Hr Hs Hd Hp Hf Hgt. simpl in *. subst d.
+  intros mods i [p d c gs] now g le Hr Hs Hb Hd Hp Hf Hgt. simpl in *. subst d.
   assert (Hne : mods <> []) by (destruct Hs as [Hin _]; destruct mods; [contradiction | discriminate]).
-  rewrite (shortest_unique mods i (configure_min mods) Hs (min_interval_is_min mods Hne Hr)) in Hgt.
+  rewrite (shortest_unique mods i (configure_min mods) Hs (min_interval_is_min mods Hne Hr)) in *.
   unfold step_s, step_i. simpl.
   destruct p; simpl; try congruence;
-    (apply tick_evals_complete with le; [exact Hf | unfold due, send_before; apply Z.ltb_lt; lia]).
+    (apply tick_evals_complete with le; [exact Hf | unfold due, send_before; rewrite neg_duration_exact by exact Hb; apply Z.ltb_lt; lia]).
 Qed.
 
 (* non-vacuity: two modules, intervals 30 / 60, send-intervals 300 / 5: minInterval is 30 in either order (not 5, not 60,
@@ -835,3 +844,114 @@ Example response_relock_example :
      (Tick 100001000000, []); (Expired, []); (Wake, [CallUnlock]); (UnlockOk, []); (Wake, [CallLock]); (LockOk, []);
      (Tick 100002000000, []); (Tick 129999999999, []); (Tick 130000000001, [Eval 1 130000000001])].
 Proof. vm_compute. reflexivity. Qed.
+
+(* ------------------------------------------------------------------------------------------------------------ *)
+(* 8. Beyond the bound: the Duration wraps; rand.Int63n panics                                                   *)
+(* ------------------------------------------------------------------------------------------------------------ *)
+
+(* the bound of the pacing theorems is exact: it is the largest interval with interval * 10^9 < 2^63 *)
+Lemma max_pace_interval_exact :
+  max_pace_interval * ns_per_s < two63 /\ two63 <= (max_pace_interval + 1) * ns_per_s.
+Proof. unfold max_pace_interval, ns_per_s, two63. lia. Qed.
+
+(* one module, interval 9223372037 s (an int64, non-negative, below MaxInt64: everything the OLD statement of
+   pacing_configured asked for): -time.Duration(interval) * time.Second wraps to +9223372036.709551616 s, sendBefore
+   lies in the year 2316, every entry is due at every iteration: two evaluations 1 ms apart *)
+Definition wrap_module : list modcfg := [mkMod (Some 9223372037) None None].
+
+Theorem pacing_wrap_refuted :
+  (forall m, In m wrap_module -> 0 <= eff_interval m < max_int64) /\ shortest wrap_module 9223372037 /\
+  exists tr l1 e1 a1 l2 e2 a2 l3 g t1 t2,
+    snd (run (step_s (configure_min wrap_module)) (init_state true one_group) tr) = l1 ++ (e1, a1) :: l2 ++ (e2, a2) :: l3
+    /\ In (Eval g t1) a1 /\ In (Eval g t2) a2 /\ forallb (keeps g) (map fst l2) = true
+    /\ t2 - t1 = 1000000 /\ ~ (t2 - t1 > 9223372037 * ns_per_s).
+Proof.
+  split; [intros m [<-|[]]; vm_compute; split; congruence|].
+  split; [split; [left; reflexivity | intros m [<-|[]]; vm_compute; discriminate]|].
+  exists [Wake; LockOk; Tick 1700000000000000000; Tick 1700000000001000000],
+         [(Wake, [CallLock]); (LockOk, [])], (Tick 1700000000000000000), [Eval 1 1700000000000000000], [],
+         (Tick 1700000000001000000), [Eval 1 1700000000001000000], [], 1%positive, 1700000000000000000, 1700000000001000000.
+  split; [vm_compute; reflexivity|]. split; [left; reflexivity|]. split; [left; reflexivity|].
+  split; [reflexivity|]. split; [reflexivity | vm_compute; intros H; discriminate H].
+Qed.
+
+(* ... and an interval of 18446744074 s wraps twice: the loop paces by 0.290448384 s *)
+Example wrap_twice_example : send_before 18446744074 1700000000000000000 = 1700000000000000000 - 290448384.
+Proof. vm_compute. reflexivity. Qed.
+
+(* rand.Int63n(minInterval*1000): an accepted configuration whose first group-list refresh with a new group kills the
+   process -- interval 0 (Int63n(0)), and every interval from 9223372036854776 on (the product wraps negative) *)
+Example refresh_panics_zero_interval :
+  step_s (configure_min [mkMod (Some 0) None None]) (init_state true (PositiveMap.empty Z)) (Refresh 1700000000000000000 [(1%positive, 0)])
+  = (mkState Crashed false true (PositiveMap.empty Z), [Panic]).
+Proof. vm_compute. reflexivity. Qed.
+
+Example refresh_panics_product_wraps :
+  configure_min [mkMod (Some 9223372036854776) None None] = 9223372036854776 /\
+  snd (step_s 9223372036854776 (init_state true (PositiveMap.empty Z)) (Refresh 1700000000000000000 [(1%positive, 0)])) = [Panic] /\
+  snd (step_s 9223372036854775 (init_state true (PositiveMap.empty Z)) (Refresh 1700000000000000000 [(1%positive, 0)])) = [].
+Proof. repeat split; vm_compute; reflexivity. Qed.
+
+(* ------------------------------------------------------------------------------------------------------------ *)
+(* 9. "(and therefore notifications)"                                                                            *)
+(* ------------------------------------------------------------------------------------------------------------ *)
+
+(* The evaluator replies to requests only (it writes to request.Reply): in a labelled trace every Response for a group
+   is preceded by an Eval action for that group.  This is a property of the ENVIRONMENT (the evaluator subsystem). *)
+Definition causal (lt : list (event * list action)) : Prop :=
+  forall l1 g st acts l2, lt = l1 ++ (Response g st, acts) :: l2 ->
+    exists la e a lb t, l1 = la ++ (e, a) :: lb /\ In (Eval g t) a.
+
+Lemma spec_eval_fresh : forall m la e a lb g t,
+  spec_ok m (la ++ (e, a) :: lb) = true -> In (Eval g t) a -> fresh (mon_event (mon_run m la) e).
+Proof.
+  intros m la e a lb g t Hok Hin.
+  apply spec_ok_app in Hok as [_ Hok]. simpl in Hok. apply andb_prop in Hok as [Hit _].
+  unfold mon_item in Hit. simpl in Hit. eapply mon_actions_eval_fresh; eassumption.
+Qed.
+
+(* What holds: every reply that reaches responseLoop (and so every notification) answers an evaluation request that was
+   ISSUED while this instance held the lock and no expiry had been reported since the grant. *)
+Theorem notifications_only_from_locked_evaluations : forall mi c0 gs tr l1 g st acts l2,
+  causal (snd (run (step_s mi) (init_state c0 gs) tr)) ->
+  snd (run (step_s mi) (init_state c0 gs) tr) = l1 ++ (Response g st, acts) :: l2 ->
+  exists la e a lb t, l1 = la ++ (e, a) :: lb /\ In (Eval g t) a /\ fresh (mon_event (mon_run (mon0 c0) la) e).
+Proof.
+  intros mi c0 gs tr l1 g st acts l2 Hc Heq.
+  destruct (Hc _ _ _ _ _ Heq) as [la [e [a [lb [t [Hl1 Hin]]]]]].
+  exists la, e, a, lb, t. split; [exact Hl1|]. split; [exact Hin|].
+  pose proof (eval_only_with_lock mi c0 gs tr) as Hok. rewrite Heq, Hl1 in Hok. rewrite <- app_assoc in Hok. simpl in Hok.
+  eapply spec_eval_fresh; eassumption.
+Qed.
+
+(* What does NOT hold (the stronger reading "notifies only while it holds the lock"): responseLoop is not gated by the
+   lock; a reply to a request issued just before the expiry is processed -- and notified -- after it. *)
+Definition late_reply_trace : list event := [Wake; LockOk; Tick 5; Expired; Response 1 3].
+
+Theorem notifications_only_while_locked_refuted :
+  exists tr l1 g st acts l2,
+    causal (snd (run (step_s 0) (init_state true one_group) tr)) /\
+    snd (run (step_s 0) (init_state true one_group) tr) = l1 ++ (Response g st, acts) :: l2 /\
+    ~ fresh (mon_run (mon0 true) l1).
+Proof.
+  exists late_reply_trace, [(Wake, [CallLock]); (LockOk, []); (Tick 5, [Eval 1 5]); (Expired, [])], 1%positive, 3, [], [].
+  split; [|split; [vm_compute; reflexivity | vm_compute; intros [_ H]; discriminate H]].
+  intros l1 g st acts l2 Heq. vm_compute in Heq.
+  destruct l1 as [|i1 [|i2 [|i3 [|i4 [|i5 r]]]]]; simpl in Heq; inversion Heq; subst.
+  - exists [(Wake, [CallLock]); (LockOk, [])], (Tick 5), [Eval 1 5], [(Expired, [])], 5. split; [reflexivity | left; reflexivity].
+  - destruct r; simpl in *; discriminate.
+Qed.
+
+(* ------------------------------------------------------------------------------------------------------------ *)
+(* 10. The resume clause on the interleaved machine, under the guard                                             *)
+(* ------------------------------------------------------------------------------------------------------------ *)
+Corollary resume_needs_unlock_and_lock_interleaved : forall mi c0 gs tr l1 a0 l2 e acts l3 g t,
+  window_free mi (init_state c0 gs) tr = true ->
+  snd (run (step_i mi) (init_state c0 gs) tr) = l1 ++ (Expired, a0) :: l2 ++ (e, acts) :: l3 ->
+  m_lock (mon_run (mon0 c0) l1) = LHeld ->
+  In (Eval g t) acts ->
+  exists la lb lc, map fst l2 ++ [e] = la ++ UnlockOk :: lb ++ LockOk :: lc.
+Proof.
+  intros mi c0 gs tr l1 a0 l2 e acts l3 g t Hw Hrun Hheld Hin.
+  eapply spec_resume_needs_unlock_and_lock; [apply (eval_only_with_lock_partial mi c0 gs tr Hw) | eassumption | assumption | eassumption].
+Qed.
